@@ -111,7 +111,7 @@ func propC04(ch core.Chooser, st *core.Stats) error {
 			}
 		}
 		n := ch.Int("nops", 0, core.Scale(25, 60))
-		if err := s.runOps(n, []int{8, 4, 2, 1, 1, 1, 1}); err != nil {
+		if err := s.runOps(n, []int{8, 4, 2, 1, 1, 1, 1, 1}); err != nil {
 			return fmt.Errorf("epoch %d: %v", e, err)
 		}
 		if core.Pct(ch, "finalclose", 30) {
